@@ -998,6 +998,135 @@ func vfRunC06Client(ctx *vfCtx, c vfCaseC06Client) {
 	vfEndSession(ctx, "C06", s, baseline)
 }
 
+// ---- frames of live sessions ------------------------------------------------------------------------------
+//
+// The codec sub-checks above feed packets to the marshallers directly. What a server or a client puts on the
+// wire is assembled by more code than that (DATA replies from handler buffers, NAME replies from listings,
+// requests written as header + payload), so the same two questions are asked of every frame of generated live
+// sessions: is it exactly the reference encoding of the fields it decodes to (nothing missing, nothing after the
+// last field - seed C06-c), and does the second codec produce the same bytes for it.
+
+type vfCaseC06Wire struct {
+	Side string     // "server": a request program against one of the servers; "client": catalogue operations against the scripted peer
+	Prog *vfCaseC02 `json:",omitempty"`
+	Ops  []string   `json:",omitempty"`
+	Opts vfOpts
+}
+
+func vfGenC06Wire(t *rapid.T) vfCaseC06Wire {
+	c := vfCaseC06Wire{Side: rapid.SampledFrom([]string{"server", "server", "client"}).Draw(t, "side")}
+	if c.Side == "server" {
+		p := vfGenC02(t)
+		p.Park, p.Release = nil, nil
+		c.Prog = &p
+		return c
+	}
+	c.Opts = vfGenSmallOpts(t)
+	n := rapid.IntRange(1, 6).Draw(t, "nops")
+	for i := 0; i < n; i++ {
+		c.Ops = append(c.Ops, vfClientOps[rapid.IntRange(0, len(vfClientOps)-1).Draw(t, "op")].Name)
+	}
+	return c
+}
+
+// vfC06Canonical checks one frame body that decoded cleanly.
+func vfC06Canonical(ctx *vfCtx, who string, body []byte) {
+	p, rest, err := vfDecodeBody(body)
+	if err != nil {
+		ctx.Failf("C06/wire/undecodable/"+who, "%s emitted a frame the reference decoder rejects (%v): %s", who, err, vfHex(body))
+	}
+	name := vfTypeName(p.Type)
+	if len(rest) != 0 {
+		ctx.Failf("C06/wire/trailing-bytes/"+who+"/"+name, "%s emitted a %s frame with %d bytes after its last field: %s", who, name, len(rest), vfHex(body))
+	}
+	if ref := vfEncodeBody(p); !bytes.Equal(ref, body) {
+		ctx.Failf("C06/wire/not-reference-layout/"+who+"/"+name, "%s emitted a %s frame that differs from the reference encoding of its own fields at byte %d:\nemitted   %s\nreference %s", who, name, vfDiffAt(ref, body), vfHex(body), vfHex(ref))
+	}
+	if p.Type == vfFxpInit || p.Type == vfFxpVersion {
+		return
+	}
+	if xb, ok, err := vfXEncode(p); ok && err == nil && len(xb) >= 4 && !bytes.Equal(xb[4:], body) {
+		ctx.Failf("C06/wire/codecs-disagree/"+who+"/"+name, "%s emitted a %s frame for which the filexfer codec produces other bytes (first difference at %d):\nemitted  %s\nfilexfer %s", who, name, vfDiffAt(xb[4:], body), vfHex(body), vfHex(xb[4:]))
+	}
+	ctx.Class("wire=" + who + "/" + name)
+}
+
+func vfRunC06Wire(ctx *vfCtx, c vfCaseC06Wire) {
+	baseline := vfPkgGoroutineIDs()
+	sftp.VfResetGlobals()
+	if c.Side == "server" {
+		ps := vfStartProg(ctx, c.Prog.Srv, c.Prog.IDBase, c.Prog.IDStep)
+		defer ps.cleanup()
+		complete := true
+	phases:
+		for _, ph := range c.Prog.Phases {
+			for _, r := range ph.Sync {
+				before := len(ps.reqs)
+				p := ps.env.build(r, ps.id())
+				ps.reqs = append(ps.reqs, p)
+				ps.srv.Send(p)
+				if !ps.srv.AwaitReplies(ctx, len(ps.reqs)) {
+					complete = false // missing responses are C02's business
+					break phases
+				}
+				ps.learn(before)
+			}
+			before := len(ps.reqs)
+			var pkts []*vfPkt
+			for _, r := range ph.Burst {
+				p := ps.env.build(r, ps.id())
+				pkts = append(pkts, p)
+				ps.reqs = append(ps.reqs, p)
+			}
+			ps.srv.Send(pkts...)
+			if !ps.srv.AwaitReplies(ctx, len(ps.reqs)) {
+				complete = false
+				break
+			}
+			ps.learn(before)
+		}
+		_, bodies, _, _ := ps.srv.Replies()
+		ps.srv.Hangup(ctx, "C06/wire")
+		who := c.Prog.Srv.Kind
+		for _, b := range bodies {
+			vfC06Canonical(ctx, who, b)
+		}
+		if complete && len(bodies) > 3 {
+			ctx.NonTrivial()
+		}
+		vfCheckNoLeak(ctx, "C06/wire/leak", baseline)
+		return
+	}
+	s, err := vfStartSession(c.Opts, func(p *vfPeer, l *vfLink) {
+		p.exts = append(p.exts, vfExt{[]byte(vfExtFsync), []byte("1")})
+	})
+	if err != nil {
+		ctx.Failf("harness/handshake", "%v", err)
+	}
+	for _, name := range c.Ops {
+		op := vfClientOpByName[name]
+		d, res := vfCall(func() (string, error) { return vfRunOp(s, op) })
+		if !vfAwait(ctx, d, name) {
+			ctx.Failf("C06/wire/hang", "%s never returns\n%s", name, vfDumpRelevant())
+		}
+		if res.Panic != nil {
+			ctx.Failf("panic/"+vfPanicSite([]byte(res.Stack)), "%v\n%s", res.Panic, vfTrimStack([]byte(res.Stack)))
+		}
+	}
+	vfEndSession(ctx, "C06/wire", s, baseline)
+	s.peer.mu.Lock()
+	reqs := append([]vfPeerReq{}, s.peer.reqs...)
+	s.peer.mu.Unlock()
+	for _, r := range reqs {
+		if r.Raw != nil {
+			vfC06Canonical(ctx, "client", r.Raw)
+		}
+	}
+	if len(reqs) > 2 {
+		ctx.NonTrivial()
+	}
+}
+
 func TestVerifC06(t *testing.T) {
 	// exhaustive part: every subset of the five attribute flags for every
 	// attribute-bearing packet kind (values drawn from a fixed example seed).
@@ -1025,6 +1154,10 @@ func TestVerifC06(t *testing.T) {
 		})
 	})
 	t.Run("gen", func(t *testing.T) { vfDriveSub(t, "gen", vfPropC06) })
+	t.Run("wire", func(t *testing.T) {
+		defer vfScaleChecks(40)()
+		vfDriveSub(t, "wire", vfProp[vfCaseC06Wire]{ID: "C06", Gen: vfGenC06Wire, Run: vfRunC06Wire})
+	})
 	t.Run("client", func(t *testing.T) {
 		defer vfScaleChecks(20)()
 		vfDriveSub(t, "client", vfProp[vfCaseC06Client]{ID: "C06", Gen: vfGenC06Client, Run: vfRunC06Client})
